@@ -43,6 +43,13 @@ Theorem C19_boolean : forall tag prop s b, linked tag prop = true -> od_get prop
   prop_get tag prop s b = VBool (match snd (getAttribute (renamed prop) s) with PFalse => false | _ => true end).
 Proof. exact boolean_prop. Qed.
 
+(* assignment: the only assignment to a linked property that raises is an out-of-range maxLength - for every element name,
+   property, value (string, None, True/False) and attribute state; uses the finite, regenerated table fact that every linked
+   property is stored under a valid attribute name *)
+Theorem C19_only_maxLength_assignment_raises : forall tag prop v isbool s e, linked tag prop = true ->
+  snd (prop_set tag prop v isbool s) = RExc e -> prop = "maxLength" /\ e = EIndexSize.
+Proof. exact prop_set_raises_only_maxLength. Qed.
+
 Example C19_ex :
   prop_get "td" "colSpan" (fst (intake [("colspan", Some "5000")] st0)) false = VInt 1000
   /\ prop_get "input" "readOnly" (fst (intake [("readonly", None)] st0)) false = VBool true
